@@ -24,10 +24,10 @@ func vfMapErr(err error) error {
 }
 
 func (s *vfS3) UploadSegment(ctx context.Context, key string, body []byte) error {
-	return s.o.Put("put-segment", key, body)
+	return s.o.PutIf("put-segment", key, body, ctx.Err)
 }
 func (s *vfS3) UploadIndex(ctx context.Context, key string, body []byte) error {
-	return s.o.Put("put-index", key, body)
+	return s.o.PutIf("put-index", key, body, ctx.Err)
 }
 func (s *vfS3) DeleteSegment(ctx context.Context, key string) error {
 	return s.o.Delete("delete-segment", key)
